@@ -1185,12 +1185,12 @@ def build(chk: Check) -> None:
     big = chk.tier == "thorough"
     gen = dict(max_side=640, max_tiles=400) if big else dict(max_side=400, max_tiles=260)
     n3 = {"quick": 96, "thorough": 4000}
-    b3 = {"quick": 60, "thorough": 800}
+    b3 = {"quick": 60, "thorough": 240}
     chk.sub("gdal_decode", o_gdal, strategy=s_case(**gen), n=n3, budget_s=b3, shrink=False)
     chk.sub("tiff_decode", o_tiff, strategy=s_case(**gen), n=n3, budget_s=b3, shrink=False)
     chk.sub("layout", o_layout, strategy=s_case(**gen), n=n3, budget_s=b3, shrink=False)
-    chk.sub("thin_images", o_all, strategy=s_case(focus="thin", **gen), n={"quick": 40, "thorough": 1600}, budget_s={"quick": 40, "thorough": 500}, shrink=False)
-    chk.sub("header_rule", o_header, strategy=s_header(), n={"quick": 400, "thorough": 30000}, budget_s={"quick": 40, "thorough": 600}, shrink=False)
+    chk.sub("thin_images", o_all, strategy=s_case(focus="thin", **gen), n={"quick": 40, "thorough": 1600}, budget_s={"quick": 40, "thorough": 120}, shrink=False)
+    chk.sub("header_rule", o_header, strategy=s_header(), n={"quick": 400, "thorough": 30000}, budget_s={"quick": 40, "thorough": 120}, shrink=False)
     chk.known("D23", _k_last_level)
     chk.known("D24", _k_axis_guess)
     chk.known("D25", _k_default_block0)
